@@ -2,13 +2,12 @@
 C07 — Trained support vector machines are optimal solutions of their dual problem.
 (theorems on the solver/trainer model; see checks/c07.py for the tie)
 -/
-import SharkVerif.Lemmas.Smo
+import SharkVerif.Lemmas.Bias
 namespace SharkVerif.C07
-open SharkVerif.Qp SharkVerif.Smo
+open SharkVerif.Qp SharkVerif.Smo SharkVerif.SvmTrainer
 
-/-- recomputed dual objective `lin·α − ½ αᵀKα` (under the current permutation) -/
-def dualObjective (s : RS) : Rat :=
-  rsum (fun k => s.lin k * s.alpha k) s.n - (1 / 2) * rsum (fun k => s.alpha k * Kalpha s k) s.n
+/-! The recomputed dual objective `lin·α − ½ αᵀKα` (under the current permutation) is `Smo.dualObjective`
+(`Lemmas/SmoObjective.lean`); `Smo.dual n Q lin α` is the same function of an arbitrary coefficient vector. -/
 
 /-- **objective_recomputed**: whenever the maintained gradient of every variable is `lin − K·α` (C08 `grad_inv`
 with all variables active, i.e. after `unshrink`), the value reported by `functionValue()` =
@@ -35,5 +34,374 @@ theorem stop_implies_kkt (strategy : Nat) (eps : Rat) (s : RS) (counter : Nat)
   unfold solveIter at h ⊢
   simp only [] at h ⊢
   split_ifs at h ⊢ with h1 h2 <;> simp_all
+
+
+/-! ## Optimality: a KKT(ε) point is within `ε·Σ(U−L)` of the maximum -/
+
+/-- **kkt_eps_near_optimal** (box problem, no bias): for a symmetric PSD quadratic form, if `α` is feasible and
+violates the KKT conditions of `max lin·α − ½αᵀQα, L ≤ α ≤ U` by at most `ε` (`g_k ≤ ε` unless `α_k = U_k`,
+`g_k ≥ −ε` unless `α_k = L_k`, with `g = lin − Qα`), then NO feasible `β` has an objective more than
+`ε·Σ_k (U_k − L_k)` above that of `α`. -/
+theorem kkt_eps_near_optimal_box {n : Nat} {Q : Nat → Nat → Rat} (hsym : ∀ a b, Q a b = Q b a) (hpsd : PSD n Q)
+    (lin L U α β : Nat → Rat) (ε : Rat) (hε : 0 ≤ ε)
+    (hα : ∀ k, k < n → L k ≤ α k ∧ α k ≤ U k) (hβ : ∀ k, k < n → L k ≤ β k ∧ β k ≤ U k)
+    (hup : ∀ k, k < n → α k < U k → lin k - rsum (fun c => Q k c * α c) n ≤ ε)
+    (hlo : ∀ k, k < n → L k < α k → -(lin k - rsum (fun c => Q k c * α c) n) ≤ ε) :
+    dual n Q lin β - dual n Q lin α ≤ ε * rsum (fun k => U k - L k) n :=
+  near_optimal_core hsym hpsd lin L U α β ε 0 hε hα hβ (zero_mul _)
+    (fun k hk h => by have := hup k hk h; linarith) (fun k hk h => by have := hlo k hk h; linarith)
+
+/-- **kkt_eps_near_optimal** (with equality constraint, i.e. trained with bias): KKT up to `ε` in the pairwise form
+the solver checks -- `g_i − g_j ≤ ε` for every `i` not at its upper and `j` not at its lower bound -- implies that no
+feasible `β` with the same coefficient sum is more than `ε·Σ(U−L)` better. -/
+theorem kkt_eps_near_optimal {n : Nat} {Q : Nat → Nat → Rat} (hsym : ∀ a b, Q a b = Q b a) (hpsd : PSD n Q)
+    (lin L U α β : Nat → Rat) (ε : Rat) (hε : 0 ≤ ε)
+    (hα : ∀ k, k < n → L k ≤ α k ∧ α k ≤ U k) (hβ : ∀ k, k < n → L k ≤ β k ∧ β k ≤ U k)
+    (hsum : rsum β n = rsum α n)
+    (hpair : ∀ i j, i < n → j < n → α i < U i → L j < α j →
+      (lin i - rsum (fun c => Q i c * α c) n) - (lin j - rsum (fun c => Q j c * α c) n) ≤ ε) :
+    dual n Q lin β - dual n Q lin α ≤ ε * rsum (fun k => U k - L k) n := by
+  obtain ⟨b, hb1, hb2⟩ := exists_bias n (fun k => lin k - rsum (fun c => Q k c * α c) n)
+    (fun i => α i < U i) (fun j => L j < α j) ε hε hpair
+  exact near_optimal_core hsym hpsd lin L U α β ε b hε hα hβ (by rw [hsum, sub_self, mul_zero]) hb1 hb2
+
+example : ∃ (Q : Nat → Nat → Rat), (∀ a b, Q a b = Q b a) ∧ PSD 2 Q :=
+  ⟨fun a b => if a = b then 1 else 0, fun a b => by by_cases h : a = b <;> simp [h, eq_comm],
+   fun v => by
+     simp only [bil, rsum, State.sumTo]
+     norm_num
+     nlinarith [mul_self_nonneg (v 0), mul_self_nonneg (v 1)]⟩
+
+/-- **configuration independence** (corollary, explicit constant): any two feasible points of the same problem that
+both satisfy the pairwise KKT conditions up to `ε` (what the solver guarantees when it reports `AccuracyReached`,
+whatever the shrinking / caching / precomputation / warm-start configuration, `stop_implies_kkt` +
+`stopped_pairwise_svm`) and have the same coefficient sum have dual objectives within `ε·Σ(U−L)` of each other. -/
+theorem config_independence {n : Nat} {Q : Nat → Nat → Rat} (hsym : ∀ a b, Q a b = Q b a) (hpsd : PSD n Q)
+    (lin L U α α' : Nat → Rat) (ε : Rat) (hε : 0 ≤ ε)
+    (hα : ∀ k, k < n → L k ≤ α k ∧ α k ≤ U k) (hα' : ∀ k, k < n → L k ≤ α' k ∧ α' k ≤ U k)
+    (hsum : rsum α' n = rsum α n)
+    (hpair : ∀ i j, i < n → j < n → α i < U i → L j < α j →
+      (lin i - rsum (fun c => Q i c * α c) n) - (lin j - rsum (fun c => Q j c * α c) n) ≤ ε)
+    (hpair' : ∀ i j, i < n → j < n → α' i < U i → L j < α' j →
+      (lin i - rsum (fun c => Q i c * α' c) n) - (lin j - rsum (fun c => Q j c * α' c) n) ≤ ε) :
+    |dual n Q lin α' - dual n Q lin α| ≤ ε * rsum (fun k => U k - L k) n := by
+  have h1 := kkt_eps_near_optimal hsym hpsd lin L U α α' ε hε hα hα' hsum hpair
+  have h2 := kkt_eps_near_optimal hsym hpsd lin L U α' α ε hε hα' hα hsum.symm hpair'
+  rw [abs_le]; constructor <;> linarith
+
+/-- the same for the problem without bias -/
+theorem config_independence_box {n : Nat} {Q : Nat → Nat → Rat} (hsym : ∀ a b, Q a b = Q b a) (hpsd : PSD n Q)
+    (lin L U α α' : Nat → Rat) (ε : Rat) (hε : 0 ≤ ε)
+    (hα : ∀ k, k < n → L k ≤ α k ∧ α k ≤ U k) (hα' : ∀ k, k < n → L k ≤ α' k ∧ α' k ≤ U k)
+    (hup : ∀ k, k < n → α k < U k → lin k - rsum (fun c => Q k c * α c) n ≤ ε)
+    (hlo : ∀ k, k < n → L k < α k → -(lin k - rsum (fun c => Q k c * α c) n) ≤ ε)
+    (hup' : ∀ k, k < n → α' k < U k → lin k - rsum (fun c => Q k c * α' c) n ≤ ε)
+    (hlo' : ∀ k, k < n → L k < α' k → -(lin k - rsum (fun c => Q k c * α' c) n) ≤ ε) :
+    |dual n Q lin α' - dual n Q lin α| ≤ ε * rsum (fun k => U k - L k) n := by
+  have h1 := kkt_eps_near_optimal_box hsym hpsd lin L U α α' ε hε hα hα' hup hlo
+  have h2 := kkt_eps_near_optimal_box hsym hpsd lin L U α' α ε hε hα' hα hup' hlo'
+  rw [abs_le]; constructor <;> linarith
+
+/-! ## From the solver's stopping test to the KKT conditions on the coefficients -/
+
+/-- when all variables are active (after `unshrink`), `checkKKT ≤ ε` of the equality-constrained problem is the
+pairwise KKT condition on the coefficients themselves (the status bits are the coefficients at their bounds) -/
+theorem stopped_pairwise_svm {s : RS} (h : Inv s) (he : s.eqc = true) (hact : s.active = s.n) {ε : Rat}
+    (hk : s.checkKKT ≤ ε) :
+    ∀ i j, i < s.n → j < s.n → s.alpha i < s.U i → s.L j < s.alpha j → s.g i - s.g j ≤ ε := by
+  intro i j hi hj hui hlj
+  rw [checkKKT_svm s he, hact] at hk
+  obtain ⟨h1, h2⟩ := maxKKT_spec s s.n
+  have hup : s.up i = false := by
+    cases hx : s.up i
+    · rfl
+    · have := (h.fup i hi).1 hx; linarith
+  have hlo : s.lo j = false := by
+    cases hx : s.lo j
+    · rfl
+    · have := (h.flo j hj).1 hx; linarith
+  have := h1 i hi hup
+  have := h2 j hj hlo
+  linarith
+
+/-- the same for the box problem: every single KKT violation is bounded by `checkKKT` -/
+theorem stopped_kkt_box {s : RS} (h : Inv s) (he : s.eqc = false) {ε : Rat} (hk : s.checkKKT ≤ ε) :
+    ∀ i, i < s.n → (s.alpha i < s.U i → s.g i ≤ ε) ∧ (s.L i < s.alpha i → - s.g i ≤ ε) := by
+  intro i hi
+  have hb := h.box i hi
+  constructor
+  · intro hui
+    have hup : s.up i = false := by
+      cases hx : s.up i
+      · rfl
+      · have := (h.fup i hi).1 hx; linarith
+    have := (checkKKT_box_spec s he i hi (fun hc => by rw [hup] at hc; exact absurd hc.2 (by simp))).1 hup
+    linarith
+  · intro hli
+    have hlo : s.lo i = false := by
+      cases hx : s.lo i
+      · rfl
+      · have := (h.flo i hi).1 hx; linarith
+    have := (checkKKT_box_spec s he i hi (fun hc => by rw [hlo] at hc; exact absurd hc.1 (by simp))).2 hlo
+    linarith
+
+/-- **the reported solution is near-optimal** (equality-constrained problem): if the invariant holds (C08
+`reachable_inv`), all variables are active and `checkKKT < ε` (which is what `stop_implies_kkt` gives for the state
+reported with `AccuracyReached`), then for PSD `K` no feasible `β` with the same coefficient sum has a dual objective
+more than `ε·Σ(U−L)` above the reported one. -/
+theorem stopped_near_optimal_svm {s : RS} (h : Inv s) (he : s.eqc = true) (hact : s.active = s.n)
+    (hpsd : PSD s.n (Qmat s)) {ε : Rat} (hε : 0 ≤ ε) (hk : s.checkKKT < ε)
+    (β : Nat → Rat) (hβ : ∀ k, k < s.n → s.L k ≤ β k ∧ β k ≤ s.U k) (hsum : rsum β s.n = alphaSum s) :
+    dual s.n (Qmat s) s.lin β - dualObjective s ≤ ε * rsum (fun k => s.U k - s.L k) s.n := by
+  rw [dualObjective_eq]
+  apply kkt_eps_near_optimal (Qmat_symm h.sym) hpsd s.lin s.L s.U s.alpha β ε hε h.box hβ hsum
+  intro i j hi hj hui hlj
+  have := stopped_pairwise_svm h he hact (le_of_lt hk) i j hi hj hui hlj
+  have gi : s.g i = s.lin i - rsum (fun b => Qmat s i b * s.alpha b) s.n := h.grad i (by rw [hact]; exact hi)
+  have gj : s.g j = s.lin j - rsum (fun b => Qmat s j b * s.alpha b) s.n := h.grad j (by rw [hact]; exact hj)
+  rw [← gi, ← gj]; exact this
+
+/-- the same for the problem without bias -/
+theorem stopped_near_optimal_box {s : RS} (h : Inv s) (he : s.eqc = false) (hact : s.active = s.n)
+    (hpsd : PSD s.n (Qmat s)) {ε : Rat} (hε : 0 ≤ ε) (hk : s.checkKKT < ε)
+    (β : Nat → Rat) (hβ : ∀ k, k < s.n → s.L k ≤ β k ∧ β k ≤ s.U k) :
+    dual s.n (Qmat s) s.lin β - dualObjective s ≤ ε * rsum (fun k => s.U k - s.L k) s.n := by
+  rw [dualObjective_eq]
+  have hg : ∀ k, k < s.n → s.g k = s.lin k - rsum (fun b => Qmat s k b * s.alpha b) s.n :=
+    fun k hk' => h.grad k (by rw [hact]; exact hk')
+  apply kkt_eps_near_optimal_box (Qmat_symm h.sym) hpsd s.lin s.L s.U s.alpha β ε hε h.box hβ
+  · intro k hk' hu; rw [← hg k hk']; exact (stopped_kkt_box h he (le_of_lt hk) k hk').1 hu
+  · intro k hk' hl; rw [← hg k hk']; exact (stopped_kkt_box h he (le_of_lt hk) k hk').2 hl
+
+/-! ## `getUnpermutedAlpha` -/
+
+/-- **unpermute_correct**: `getUnpermutedAlpha` undoes the accumulated coordinate flips: entry `perm i` of the result
+is the coefficient of the (permuted) variable `i`, for every injective `perm` (C08 `reachable_inv` keeps it
+injective); positions that are not hit keep the initial value. -/
+theorem unpermute_correct (s : RS) (z : Rat)
+    (hinj : ∀ a b, a < s.n → b < s.n → s.perm a = s.perm b → a = b) :
+    (∀ i, i < s.n → unpermutedAlpha s z (s.perm i) = s.alpha i) ∧
+    (∀ x, (∀ i, i < s.n → s.perm i ≠ x) → unpermutedAlpha s z x = z) := by
+  have key : ∀ m, m ≤ s.n →
+      let f := (List.range m).foldl (fun (f : Nat → Rat) i => upd f (s.perm i) (s.alpha i)) (fun _ => z)
+      (∀ i, i < m → f (s.perm i) = s.alpha i) ∧ (∀ x, (∀ i, i < m → s.perm i ≠ x) → f x = z) := by
+    intro m
+    induction m with
+    | zero => intro _ f; exact ⟨fun i hi => by omega, fun x _ => rfl⟩
+    | succ m ih =>
+      intro hm f
+      have hf : f = upd ((List.range m).foldl (fun (f : Nat → Rat) i => upd f (s.perm i) (s.alpha i)) (fun _ => z))
+          (s.perm m) (s.alpha m) := by
+        show (List.range (m + 1)).foldl _ _ = _
+        rw [List.range_succ, List.foldl_append]; rfl
+      obtain ⟨ih1, ih2⟩ := ih (by omega)
+      rw [hf]
+      constructor
+      · intro i hi
+        by_cases him : i = m
+        · subst him; exact upd_same _ _ _
+        · have hne : s.perm i ≠ s.perm m := fun e => him (hinj i m (by omega) (by omega) e)
+          rw [upd_ne _ _ hne]; exact ih1 i (by omega)
+      · intro x hx
+        have hne : x ≠ s.perm m := fun e => hx m (Nat.lt_succ_self m) e.symm
+        rw [upd_ne _ _ hne]; exact ih2 x (fun i hi => hx i (by omega))
+  exact key s.n (Nat.le_refl _)
+
+example : ∃ s : RS, (∀ a b, a < s.n → b < s.n → s.perm a = s.perm b → a = b) ∧ 0 < s.n :=
+  ⟨State.init 1 (fun _ _ => 1) true false (fun _ => 1) (fun _ => 0) (fun _ => 1), fun _ _ _ _ e => e, by decide⟩
+
+
+/-! ## `computeBias` -/
+
+theorem lit1e100 : (1.0e100 : Rat) = 10 ^ 100 := by norm_num
+
+theorem mean_le {S c x ε : Rat} (hc : 0 < c) (h : x * c - S ≤ ε * c) : x - S / c ≤ ε := by
+  have hS : S / c * c = S := div_mul_cancel₀ S (ne_of_gt hc)
+  by_contra hcon
+  have := mul_lt_mul_of_pos_right (not_le.mp hcon) hc
+  nlinarith
+
+theorem mean_ge {S c x ε : Rat} (hc : 0 < c) (h : S - x * c ≤ ε * c) : S / c - x ≤ ε := by
+  have hS : S / c * c = S := div_mul_cancel₀ S (ne_of_gt hc)
+  by_contra hcon
+  have := mul_lt_mul_of_pos_right (not_le.mp hcon) hc
+  nlinarith
+
+/-- FULL STATEMENT (not provable for the code as it is): whenever the reported state satisfies the pairwise KKT
+conditions up to `ε`, the bias `b` returned by `computeBias` lies in the interval the optimality conditions allow:
+`g_i − b ≤ ε` for every `i` not at its upper bound and `b − g_j ≤ ε` for every `j` not at its lower bound.
+PROVED PART: non-degenerate boxes (`L_k < U_k`) and gradients inside the sentinel range `[−1e100, 1e100]` of the
+C++ (`lowerBound = -1e100`, `upperBound = 1e100`); both hypotheses are used only when there is no free variable.
+`bias_degenerate_box_witness` and `bias_sentinel_witness` lie outside.  `s.g` is the maintained gradient, which is
+`lin − K·α` for all variables after `unshrink` (C08 `grad_all_after_unshrink`). -/
+theorem bias_in_kkt_interval_partial {s : RS} (h : Inv s) {ε : Rat} (hε : 0 ≤ ε)
+    (hpair : ∀ i j, i < s.n → j < s.n → s.alpha i < s.U i → s.L j < s.alpha j → s.g i - s.g j ≤ ε)
+    (hnd : ∀ k, k < s.n → s.L k < s.U k)
+    (hrange : ∀ k, k < s.n → -(10 : Rat) ^ 100 ≤ s.g k ∧ s.g k ≤ 10 ^ 100) :
+    (∀ i, i < s.n → s.alpha i < s.U i → s.g i - computeBias s (fun k => (k : Rat)) ≤ ε) ∧
+    (∀ j, j < s.n → s.L j < s.alpha j → computeBias s (fun k => (k : Rat)) - s.g j ≤ ε) := by
+  by_cases hn : s.n = 0
+  · exact ⟨fun i hi => by omega, fun j hj => by omega⟩
+  rw [computeBias_eq, if_neg hn]
+  obtain ⟨h1, h2, h3, h4, h5, h6⟩ := biasInv_all s s.n
+  -- the bound tests of `computeBias` are tests against the raw box under the invariant
+  have hBL : ∀ k, k < s.n → (s.alpha k = s.boxMin k ↔ s.alpha k = s.L k) := fun k hk => by rw [boxMin_eq h hk]
+  have hBU : ∀ k, k < s.n → (s.alpha k = s.boxMax k ↔ s.alpha k = s.U k) := fun k hk => by rw [boxMax_eq h hk]
+  have hfree : ∀ k, k < s.n → ¬ atB s k → s.L k < s.alpha k ∧ s.alpha k < s.U k := by
+    intro k hk hB
+    have hb := h.box k hk
+    have n1 : s.alpha k ≠ s.L k := fun e => hB (Or.inl ((hBL k hk).2 e))
+    have n2 : s.alpha k ≠ s.U k := fun e => hB (Or.inr ((hBU k hk).2 e))
+    exact ⟨lt_of_le_of_ne hb.1 (Ne.symm n1), lt_of_le_of_ne hb.2 n2⟩
+  generalize biasAcc s s.n = acc at *
+  by_cases hc : acc.2.2.2 > 0
+  · rw [if_pos hc]
+    have hcq : (0 : Rat) < (acc.2.2.2 : Rat) := by exact_mod_cast hc
+    constructor
+    · intro i hi hui
+      have hle : rsum (fun k => if atB s k then 0 else s.g i - s.g k) s.n
+          ≤ rsum (fun k => if atB s k then 0 else ε) s.n := by
+        apply rsum_le; intro k hk
+        by_cases hB : atB s k
+        · simp only [hB, if_true]; exact le_refl _
+        · simp only [hB, if_false]; exact hpair i k hi hk hui (hfree k hk hB).1
+      have e1 : rsum (fun k => if atB s k then 0 else s.g i - s.g k) s.n
+          = s.g i * (acc.2.2.2 : Rat) - acc.2.2.1 := by
+        rw [h1, h2, ← rsum_mul_left, ← rsum_sub]; apply rsum_congr; intro k _; split <;> ring
+      have e2 : rsum (fun k => if atB s k then 0 else ε) s.n = ε * (acc.2.2.2 : Rat) := by
+        rw [h2, ← rsum_mul_left]; apply rsum_congr; intro k _; split <;> ring
+      rw [e1, e2] at hle
+      exact mean_le hcq hle
+    · intro j hj hlj
+      have hle : rsum (fun k => if atB s k then 0 else s.g k - s.g j) s.n
+          ≤ rsum (fun k => if atB s k then 0 else ε) s.n := by
+        apply rsum_le; intro k hk
+        by_cases hB : atB s k
+        · simp only [hB, if_true]; exact le_refl _
+        · simp only [hB, if_false]; exact hpair k j hk hj (hfree k hk hB).2 hlj
+      have e1 : rsum (fun k => if atB s k then 0 else s.g k - s.g j) s.n
+          = acc.2.2.1 - s.g j * (acc.2.2.2 : Rat) := by
+        rw [h1, h2, ← rsum_mul_left, ← rsum_sub]; apply rsum_congr; intro k _; split <;> ring
+      have e2 : rsum (fun k => if atB s k then 0 else ε) s.n = ε * (acc.2.2.2 : Rat) := by
+        rw [h2, ← rsum_mul_left]; apply rsum_congr; intro k _; split <;> ring
+      rw [e1, e2] at hle
+      exact mean_ge hcq hle
+  · rw [if_neg hc, lit05]
+    have hz : acc.2.2.2 = 0 := by omega
+    have hall : ∀ k, k < s.n → atB s k := count_zero_all_bound s s.n (by rw [← h2, hz]; norm_num)
+    rw [lit1e100] at h5 h6
+    constructor
+    · intro i hi hui
+      have hiL : s.alpha i = s.boxMin i := by
+        rcases hall i hi with e | e
+        · exact e
+        · have := (hBU i hi).1 e; linarith
+      have hlb := h3 i hi hiL
+      have hub : s.g i - acc.2.1 ≤ ε := by
+        rcases h6 with e | ⟨k, hk, hk1, hk2, hk3⟩
+        · rw [e]; have := (hrange i hi).2; linarith
+        · rw [← hk3]
+          have hkL : s.L k < s.alpha k :=
+            lt_of_le_of_ne (h.box k hk).1 (fun e => hk1 ((hBL k hk).2 e.symm))
+          exact hpair i k hi hk hui hkL
+      linarith
+    · intro j hj hlj
+      have hjL : s.alpha j ≠ s.boxMin j := fun e => by have := (hBL j hj).1 e; linarith
+      have hjU : s.alpha j = s.boxMax j := (hall j hj).resolve_left hjL
+      have hub := h4 j hj hjL hjU
+      have hlb : acc.1 - s.g j ≤ ε := by
+        rcases h5 with e | ⟨k, hk, hk1, hk2⟩
+        · rw [e]; have := (hrange j hj).1; linarith
+        · rw [← hk2]
+          have hkU : s.alpha k < s.U k := by rw [(hBL k hk).1 hk1]; exact hnd k hk
+          exact hpair k j hk hj hkU hlj
+      linarith
+
+example : ∃ (s : RS) (ε : Rat), Smo.Inv s ∧ 0 ≤ ε ∧ 0 < s.n ∧
+    (∀ i j, i < s.n → j < s.n → s.alpha i < s.U i → s.L j < s.alpha j → s.g i - s.g j ≤ ε) ∧
+    (∀ k, k < s.n → s.L k < s.U k) ∧ (∀ k, k < s.n → -(10 : Rat) ^ 100 ≤ s.g k ∧ s.g k ≤ 10 ^ 100) := by
+  refine ⟨State.init 1 (fun _ _ => 1) true false (fun _ => 1) (fun _ => 0) (fun _ => 1), 0, ?_, le_refl _, by decide,
+    ?_, ?_, ?_⟩
+  · refine ⟨fun _ _ => rfl, Nat.le_refl _, fun _ => rfl, fun _ hk => hk, fun _ _ _ _ e => e, fun _ _ => rfl, ?_, ?_, ?_,
+      ?_, ?_, fun _ h1 h2 => absurd h2 (Nat.not_lt.mpr h1)⟩
+    · intro k _; simp [State.init, lit0]
+    · intro k _; simp [State.init, lit0]
+    · intro k _; simp [State.init, lit0]
+    · intro a _; simp [State.init, Kalpha, rsum, State.sumTo, lit0]
+    · intro hs; simp [State.init] at hs
+  · intro i j hi hj _ hl; simp [State.init, lit0] at hl
+  · intro k _; simp [State.init]
+  · intro k _; simp only [State.init]; constructor <;> norm_num
+
+/-- witness outside the first hypothesis (degenerate box): variable 0 has `L = U = 0` and gradient 10, variable 1
+sits at its upper bound of `[0,1]` with gradient 0.  No variable is below its upper bound, so the pairwise KKT
+conditions hold for every `ε ≥ 0`, yet `computeBias` returns `½(10 + 0) = 5` and `b − g_1 = 5 > 1`. -/
+def biasWitnessDegenerate : RS where
+  n := 2
+  K := fun _ _ => 0
+  eqc := true
+  shrinkOn := false
+  unshrinked := false
+  active := 2
+  perm := fun k => k
+  lin := fun k => if k = 0 then 10 else 0
+  alpha := fun k => if k = 0 then 0 else 1
+  diag := fun _ => 0
+  L := fun _ => 0
+  U := fun k => if k = 0 then 0 else 1
+  g := fun k => if k = 0 then 10 else 0
+  gEdge := fun k => if k = 0 then 10 else 0
+  lo := fun k => k == 0
+  up := fun _ => true
+
+theorem bias_degenerate_box_witness :
+    let s : RS := biasWitnessDegenerate
+    (∀ i j, i < s.n → j < s.n → s.alpha i < s.U i → s.L j < s.alpha j → s.g i - s.g j ≤ 1) ∧
+    s.L 1 < s.alpha 1 ∧ ¬ (computeBias s (fun k => (k : Rat)) - s.g 1 ≤ 1) := by
+  intro s
+  refine ⟨?_, by norm_num [s, biasWitnessDegenerate], ?_⟩
+  · intro i j hi hj hui _
+    have : i = 0 ∨ i = 1 := by have : i < 2 := hi; omega
+    rcases this with e | e <;> subst e <;> norm_num [s, biasWitnessDegenerate] at hui
+  · have hb : computeBias s (fun k => (k : Rat)) = 5 := by
+      rw [computeBias_eq]
+      simp only [biasAcc, biasStep, s, biasWitnessDegenerate, State.boxMin, State.boxMax, List.range_succ, List.range_zero, List.nil_append,
+        List.foldl_cons, List.foldl_nil, List.cons_append, lit0, lit05, lit1e100]
+      norm_num
+    rw [hb]; norm_num [s, biasWitnessDegenerate]
+
+/-- witness outside the second hypothesis (sentinel range): one variable at its upper bound of `[0,1]` with gradient
+`−3e100`: `computeBias` returns `½(−1e100 − 3e100) = −2e100`, and `b − g_0 = 1e100 > 1`. -/
+def biasWitnessSentinel : RS where
+  n := 1
+  K := fun _ _ => 0
+  eqc := true
+  shrinkOn := false
+  unshrinked := false
+  active := 1
+  perm := fun k => k
+  lin := fun _ => -(3 * 10 ^ 100)
+  alpha := fun _ => 1
+  diag := fun _ => 0
+  L := fun _ => 0
+  U := fun _ => 1
+  g := fun _ => -(3 * 10 ^ 100)
+  gEdge := fun _ => -(3 * 10 ^ 100)
+  lo := fun _ => false
+  up := fun _ => true
+
+theorem bias_sentinel_witness :
+    let s : RS := biasWitnessSentinel
+    (∀ i j, i < s.n → j < s.n → s.alpha i < s.U i → s.L j < s.alpha j → s.g i - s.g j ≤ 1) ∧
+    s.L 0 < s.alpha 0 ∧ ¬ (computeBias s (fun k => (k : Rat)) - s.g 0 ≤ 1) := by
+  intro s
+  refine ⟨?_, by norm_num [s, biasWitnessSentinel], ?_⟩
+  · intro i j _ _ hui _; norm_num [s, biasWitnessSentinel] at hui
+  · have hb : computeBias s (fun k => (k : Rat)) = -(2 * 10 ^ 100) := by
+      rw [computeBias_eq]
+      simp only [biasAcc, biasStep, s, biasWitnessSentinel, State.boxMin, State.boxMax, List.range_succ, List.range_zero, List.nil_append,
+        List.foldl_cons, List.foldl_nil, lit0, lit05, lit1e100]
+      norm_num
+    rw [hb]; norm_num [s, biasWitnessSentinel]
 
 end SharkVerif.C07
